@@ -444,6 +444,33 @@ def check_search_evaluated(repo: Repo, rep: Report, tier: str) -> None:
                 shown_v = getattr(inst[kw], "_minipy_str", inst[kw])
                 rep.check(ok, "stored-form", "apps.qrscp.db.add_instance", f"{kw} = {shown_v!r}: stored as {stored.get(tr[kw])!r} ({type(stored.get(tr[kw])).__name__}), compared with {cs[0].value if cs else None!r} ({type(cs[0].value).__name__ if cs else '-'})", f"an instance carrying {kw} {shown_v!r} is indexed in one representation and single value matching compares the column with another: the key no longer selects the entity that carries that very value (PS3.4 C.2.2.2.1)", mod=db, node=db.funcs.get("add_instance"))
         rep.floor("keys whose stored and compared forms were evaluated", n_s, 12)
+        # re-indexing an instance (same SOP Instance UID stored again): every key column reflects the *new* data
+        # set - an attribute the new version no longer carries must not keep selecting the entity
+        rep.rule("reindex-replaces", "storing an instance again replaces every indexed key: an attribute absent from the new data set is cleared")
+        uniques = {attr[lv][0] for lv in levels}
+        old_row = {tr[k]: ("OLD" if not isinstance(inst[k], int) else 77) for k in tr}
+        for k in uniques:
+            old_row[tr[k]] = inst[k]
+        new_vals = {k: v for k, v in inst.items() if k in uniques}
+        again = q.stored(new_vals, existing=old_row)
+        stale = sorted(k for k in tr if k not in uniques and again.get(tr[k]) is not None)
+        rep.check(not stale, "reindex-replaces", "apps.qrscp.db.add_instance", f"update of an indexed instance with a data set lacking {len(tr) - len(uniques)} optional keys -> columns left with the old value: {stale or 'none'}", f"when an instance is stored again without {stale[:3]}... the row keeps the previous version's values: a C-FIND on the old value still selects the entity (and echoes the stale value), which PS3.4 matching on the stored instances does not", mod=db, node=db.funcs.get("add_instance"))
+        # zero-length values: a stored attribute of zero length must not take part in range / single-value
+        # matching as the empty string ('' <= '20200101' is true in SQL): it is indexed as NULL - by add_instance
+        # itself or because the application tells pydicom to decode empty text values as None
+        rep.rule("empty-is-null", "a zero-length attribute is indexed as NULL (add_instance maps '' to None, or qrscp sets pydicom's use_none_as_empty_text_VR_value)")
+        empt = {k: (v if k in uniques else "") for k, v in inst.items() if not isinstance(v, int) or k in uniques}
+        st_e = q.stored(empt)
+        kept_empty = sorted(k for k in empt if k not in uniques and st_e.get(tr[k]) == "")
+        flag_set = False
+        try:
+            qm = repo.mod("apps.qrscp.qrscp")
+            for a_ in qm.tree.body:
+                if isinstance(a_, ast.Assign) and isinstance(a_.targets[0], ast.Attribute) and a_.targets[0].attr == "use_none_as_empty_text_VR_value" and isinstance(a_.value, ast.Constant) and a_.value.value is True:
+                    flag_set = True
+        except Exception:
+            qm = None
+        rep.check(not kept_empty or flag_set, "empty-is-null", "apps.qrscp.db.add_instance", f"zero-length values stored as '' for {kept_empty[:4]}; pydicom told to decode empty text as None at application start: {flag_set}", "a zero-length Study Date / Time (type 2: present but empty) is indexed as the empty string: an open-start range key such as '-20200101' (column <= end) then also returns the studies that have no date at all, which range matching does not select", mod=db, node=db.funcs.get("add_instance"))
     except Unsupported as exc:
         rep.defer(f"apps.qrscp.db: search()/add_instance could not be evaluated ({exc})")
 
